@@ -51,7 +51,8 @@ def run(ctx):
     for grid in shapes:
         d = len(grid)
         for rep in range(3 if not ctx.thorough else 6):
-            sshape = tuple(rng.choice([1, 3, 3, 5] if d < 3 else [1, 3, 3]) for _ in range(d))
+            # (stencils may be wider than the grid: half-widths up to 4 on grids of 1..5 points)
+            sshape = tuple(rng.choice([1, 3, 3, 5, 7, 9] if d < 3 else [1, 3, 3, 5, 7]) for _ in range(d))
             S = np.array([rng.choice([0, 0, 1, -1, 2, -3, 4, 7]) for _ in range(int(np.prod(sshape)))]).reshape(sshape)
             if not S.any():
                 S.flat[0] = 5
